@@ -56,6 +56,29 @@ def arg(call: ast.Call, pos: int, name: str | None = None) -> ast.AST | None:
     return None
 
 
+def bind_args(repo, call: ast.Call, qualname: str) -> dict[str, ast.AST]:
+    """the call's arguments bound to the parameters of the repository function `qualname` (self dropped for methods),
+    omitted parameters mapped to their default expressions: positional, keyword and defaulted spellings coincide"""
+    fi = repo.func(qualname)
+    a = fi.node.args
+    names = [x.arg for x in a.posonlyargs + a.args]
+    defaults = dict(zip(names[len(names) - len(a.defaults):], a.defaults))
+    if fi.cls is not None and names and names[0] in ("self", "cls"):
+        names = names[1:]
+    out: dict[str, ast.AST] = {}
+    for n_, v in zip(names, call.args):
+        if isinstance(v, ast.Starred):
+            break
+        out[n_] = v
+    for k in call.keywords:
+        if k.arg is not None:
+            out[k.arg] = k.value
+    for n_ in names:
+        if n_ not in out and n_ in defaults:
+            out[n_] = defaults[n_]
+    return out
+
+
 def node_has_call(n: Node, pred) -> bool:
     return any(pred(c) for c in calls_in_node(n))
 
